@@ -64,6 +64,10 @@ pub struct FaultPlan {
     pub applied_but_failed: bool,
     /// faults stop once this many requests were submitted
     pub heal_after: Option<u64>,
+    /// ordinals (count of requests submitted to any file other than the top file, i.e. to the
+    /// images of the backing chain, starting at 0) that fail; not subject to `heal_after`
+    #[serde(default)]
+    pub back_fail_ordinals: Vec<u64>,
 }
 
 pub struct FileState {
@@ -91,6 +95,8 @@ pub struct WorldInner {
     pub faults: FaultPlan,
     pub faults_on: bool,
     pub injected: u64,
+    /// requests submitted to files other than the top file
+    pub back_submitted: u64,
     /// keep payloads of writes in the log (needed for crash images)
     pub keep_data: bool,
     /// hard cap on the size a simulated file may reach
@@ -199,9 +205,12 @@ impl WorldInner {
         &mut self.log[seq as usize]
     }
 
-    fn fault_for(&self, file: usize, kind: ReqKind, ordinal: u64) -> bool {
-        if !self.faults_on || file != 0 {
+    fn fault_for(&self, file: usize, kind: ReqKind, ordinal: u64, back_ordinal: Option<u64>) -> bool {
+        if !self.faults_on {
             return false;
+        }
+        if file != 0 {
+            return back_ordinal.map(|b| self.faults.back_fail_ordinals.contains(&b)).unwrap_or(false);
         }
         if let Some(h) = self.faults.heal_after {
             if ordinal >= h {
@@ -348,7 +357,13 @@ impl<'a> ReqFut<'a> {
         w.seq += 1;
         let ordinal = w.files[self.file].submitted;
         w.files[self.file].submitted += 1;
-        let fail = w.fault_for(self.file, self.kind, ordinal);
+        let back_ordinal = if self.file != 0 {
+            w.back_submitted += 1;
+            Some(w.back_submitted - 1)
+        } else {
+            None
+        };
+        let fail = w.fault_for(self.file, self.kind, ordinal, back_ordinal);
         if fail {
             w.injected += 1;
         }
